@@ -684,3 +684,7 @@ impl From<ffi::CommandStatus> for CommandStatus {
         }
     }
 }
+
+#[cfg(kani)]
+#[path = "/verif/harness/ffi_outstation_adapters.rs"]
+mod verif_harness;
